@@ -74,7 +74,7 @@ def freq_case(draw, tier):
                 'many': {'n': n, 'stride': stride,
                          'shift': draw(st.integers(0, 50)),
                          'fmul': draw(st.sampled_from([1, 2, 3, 0]))},
-                'opts': draw(G.opts_strategy(with_pruning=False)),
+                'opts': draw(G.opts_strategy(with_pruning=True)),
                 'size': None, 'seed': draw(st.sampled_from([None, 1])),
                 'form': 'dict', 'avoid_known': True}
     xs = draw(G.examples_strategy(tier, allow_none=True))
@@ -89,7 +89,7 @@ def freq_case(draw, tier):
         freqs = [draw(st.sampled_from([0, 1, 1, 2, 3, 5])) for _ in xs]
     return {
         'examples': xs, 'freqs': freqs,
-        'opts': draw(G.opts_strategy(with_pruning=False)),
+        'opts': draw(G.opts_strategy(with_pruning=True)),
         'size': draw(st.one_of(st.sampled_from([None, None, 0]),
                                st.sampled_from([None, None, 0]),
                                st.sampled_from([None, None, 0]),
